@@ -51,6 +51,11 @@ CHECKS.update({
             'Narrow claim: sorted dictionary before index assignment, codec-op property tables one-sidedly '
             'safe, comparison registry rows mutually consistent. Comparison results, constant translation, '
             'NULL semantics NOT decided.', '5/C03'),
+    'C02': ('syntax-tree + MIR structure rules on how partial results are put together (ORD-16, TBL-14, FLW-16, ORD-13)',
+            'Narrow claim: partial results are combined in partition order (ordered map keyed by range start, '
+            'contiguous ranges only, left before right), partial aggregates merge with their own operation, '
+            'buffer partitions follow persisted ones without gap/overlap, per-partition sort is stable. '
+            'Equality of results across layouts at value level is NOT decided.', '5/C02'),
     'C04': ('syntax-tree table rules over the aggregator pipeline: SQL name -> aggregator -> planner arm '
             '(TBL-15), marker type operations and neutral elements (TBL-16), merge of partial aggregates and '
             'its plumbing (TBL-14), checked SUM (CHK-8)',
@@ -89,10 +94,6 @@ CHECKS.update({
 })
 
 NA = {
-    'C02': 'not applicable to static analysis: equality of query results across physical layouts (batching, '
-           'compaction state, batch size, thread count) is a relation between runtime values produced by '
-           'different data-dependent plans; no clause of it is visible in the shape of the code and no sound '
-           'static argument is in reach (DESIGN.md section 9)',
 }
 
 
